@@ -5,5 +5,7 @@ VARIABLE x
 Emit(S) == \A c \in S : PrintT(ToJson(c))
 InitMethods == x = 0 /\ Emit(MethodCases)
 InitNames == x = 0 /\ Emit(NameCases)
+InitMaps == x = 0 /\ \A ls \in MappingLists : PrintT(ToJson([list |-> ls]))
+InitSa == x = 0 /\ Emit(SaCases)
 Next == UNCHANGED x
 =============================================================================
